@@ -191,6 +191,41 @@ func checkHeader(t fataler, m mHeader, reuse *mHeader) {
 	if hh := nh.Hash(); hh != wantHash {
 		t.Fatalf("NewHeader(...).Hash of %s: %s, want %s", m, hh, wantHash)
 	}
+	// a deep copy of an already hashed header is a header of its own: once it is
+	// modified (as block execution does when it strips the seal) its hash is the
+	// BLAKE2b-256 of ITS encoding, not the hash cached in the original
+	cp, err := h.DeepCopy()
+	if err != nil {
+		t.Fatalf("DeepCopy of %s: %v", m, err)
+	}
+	if hh := cp.Hash(); hh != wantHash {
+		t.Fatalf("Hash of an unmodified DeepCopy of %s: %s, want %s", m, hh, wantHash)
+	}
+	cp2, err := h.DeepCopy()
+	if err != nil {
+		t.Fatalf("DeepCopy of %s: %v", m, err)
+	}
+	m2 := m
+	if len(m.items) > 0 {
+		m2.items = m.items[:len(m.items)-1]
+		cp2.Digest = cp2.Digest[:len(cp2.Digest)-1]
+	} else if m.number != ^uint32(0) {
+		m2.number = m.number + 1
+		cp2.Number++
+	} else {
+		m2.number = m.number - 1
+		cp2.Number--
+	}
+	ref2 := m2.ref()
+	if enc2, err := scale.Marshal(*cp2); err != nil || !bytes.Equal(enc2, ref2) {
+		t.Fatalf("encoding of the modified copy of %s: %x (err %v), want %x", m, hb(enc2), err, hb(ref2))
+	}
+	if hh, want := cp2.Hash(), common.Hash(kit.Blake256(ref2)); hh != want {
+		t.Fatalf("Hash of a modified DeepCopy of the hashed header %s: %s, BLAKE2b-256(its encoding) = %s (hash of the original %s)", m, hh, want, wantHash)
+	}
+	if hh := h.Hash(); hh != wantHash {
+		t.Fatalf("Hash of %s changed after its copy was modified: %s, want %s", m, hh, wantHash)
+	}
 	// every digest item on its own
 	for i, it := range m.items {
 		e := &enc{}
